@@ -85,6 +85,20 @@ CLAIMED = {
              '(trace_one_per_accepted); no tracer => no trace (no_tracer_no_trace); non-calls never trace (only_calls_trace); tracer chain '
              'push/remove (tracer_stack, nested_restore).',
         ref='DESIGN.md §4 C17', technique='Lean 4 proof + model/implementation correspondence'),
+    'C11': dict(
+        text='Theorems (all lengths, duplicates allowed): the element-wise fold / std::equal / std::mismatch loops accept exactly '
+             'Forall2-matches of the whole range, a prefix, a suffix (isElements_iff, equal4_iff, startsWithE/R_iff, endsWithE/R_iff); with '
+             'plain values: range = list, prefix, suffix (rangeIs_values, startsWith_values, endsWith_values); the first-fit swap-with-last '
+             'loop of range_includes under pairwise non-overlapping matchers accepts iff every listed matcher has as many accepted members '
+             'as its multiplicity (includesG_iff_counts), for values iff multiset inclusion (includes_values: Subperm); '
+             'range_is_permutation = includes + equal length (isPermG_iff), for values iff Perm (permutation_values); all/any/none incl. '
+             'empty range (allOf_iff, anyOf_iff, noneOf_iff, empty_range). Overlapping matchers: the model IS the documented first-fit '
+             'algorithm; the obligation is the correspondence. Exhaustive correspondence as the property asks.',
+        ref='DESIGN.md §4 C11', engine='lean-range',
+        note='Trusted: Lean kernel; axioms propext/Classical.choice/Quot.sound; Mathlib list Perm/Subperm/count lemmas; statements in '
+             'Props/C11.lean; h_range harness (real range matchers evaluated on run-time data through param_matches) and generator. '
+             'libstdc++ algorithms (std::equal, std::mismatch, std::find_if, std::all_of...) are modelled by their specification.',
+        technique='Lean 4 proof (loop refinement to Forall2 / Subperm / Perm) + exhaustive model/implementation correspondence'),
 }
 
 ALL = ['C%02d' % i for i in range(1, 21)]
@@ -117,6 +131,8 @@ def main():
                    baseline_off_cmd='cmake --build /repo/_build -j16 && /repo/_build/test/self_test',
                    source_commits=[], add_only=True),
         engines=[
+            dict(name='lean-range', path='lean/TrompModel/Model/Range.lean', serves_properties=['C11'],
+                 kind_free_text='Lean 4 model of the range checkers + theorems (Props/C11.lean); harness/range evaluates the real matchers'),
             dict(name='lean-world', path='lean/', serves_properties=[p for p in ALL if p in CLAIMED and CLAIMED[p].get('engine', 'lean-world') == 'lean-world'],
                  kind_free_text='Lean 4 model of expectations/sequences/lifetimes with property theorems; C++ harness harness/world drives the real headers; tools/check.py compares'),
         ],
